@@ -1,1 +1,114 @@
-/-! C27 — property theorems (stub: nothing proved yet). -/
+import B6.Model.Pbf
+import B6.Lemmas.Pbf
+/-!
+C27 — OSM PBF files read back what was written.
+
+The theorems are about the model `B6/Model/Pbf.lean` of `osm/pbf.go` (writer state machine, block
+structure, reader). `writeAll es` = the data blocks `NewWriter` + `WriteElement`* + `Flush` put into the
+file, `readAll` = `ReadPBFWithOptions` with one reader goroutine, `readCores … assign g` = with `g`
+goroutines when the scheduler hands block `i` to goroutine `assign[i]`.
+
+Coordinates: a node enters the model with `int64(angle/.000000001)` nano-degrees and leaves it with the
+integer that `decodeAngle` multiplies by `.000000001`; the two float conversions are the stated boundary
+(`coord_within_step_of_contract` carries the contract `|int64(x/1e-9) − x/1e-9| < 1` as a hypothesis).
+-/
+namespace B6.Props.C27
+open B6.Model.Pbf B6.Lemmas.Pbf
+
+/-- Round trip, one reader goroutine: any sequence of nodes, ways and relations — any interleaving of the
+three types, any length (the induction over the element list goes through every type switch and every
+`elementsPerGroup` flush) — reads back without error as the same sequence, in the same order, each element
+`quantise`d. -/
+theorem pbf_roundtrip (es : List Element) : readAll {} (writeAll es) = ⟨es.map quantise, none⟩ :=
+  (writeAll_spec es).1
+
+/-- `quantise` keeps IDs, tags, way nodes, members (type, ID, role) and their order; it only replaces the
+two coordinates of a node by `quantCoord`. -/
+theorem quantise_spec (e : Element) :
+    match e with
+    | .node id lat lon tags => quantise e = .node id (quantCoord lat) (quantCoord lon) tags
+    | .way id nodes tags => quantise e = .way id nodes tags
+    | .relation id members tags => quantise e = .relation id members tags := by
+  cases e <;> rfl
+
+/-- a coordinate read back is less than one granularity step (100 nano-degrees) from the `int64`
+nano-degree value that was written, for every `int64` (no overflow anywhere: `100 * (n / 100)` never
+leaves the range) -/
+theorem coord_within_step (n : Int64) : ((quantCoord n).toInt - n.toInt).natAbs < 100 :=
+  quantCoord_within_step n
+
+/-- …and less than one step from the real coordinate `X` (in nano-degrees, a rational) under the
+conversion contract `|int64(X) − X| < 1` of the float → `int64` boundary. -/
+theorem coord_within_step_of_contract (X : Rat) (n : Int64)
+    (h1 : (n.toInt : Rat) - X < 1) (h2 : -1 < (n.toInt : Rat) - X) :
+    ((quantCoord n).toInt : Rat) - X < 100 ∧ -100 < ((quantCoord n).toInt : Rat) - X := by
+  have h := quantCoord_within_step n
+  have h3 : (quantCoord n).toInt - n.toInt ≤ 99 := by omega
+  have h4 : -99 ≤ (quantCoord n).toInt - n.toInt := by omega
+  have h3' : (((quantCoord n).toInt - n.toInt : Int) : Rat) ≤ ((99 : Int) : Rat) := by exact_mod_cast h3
+  have h4' : (((-99 : Int)) : Rat) ≤ (((quantCoord n).toInt - n.toInt : Int) : Rat) := by exact_mod_cast h4
+  constructor <;> grind
+
+/-- Any number of reader goroutines, any schedule: the file consists of blocks that each read without
+error, block by block they give back the written sequence (`quantise`d) in order, and goroutine `k`
+emits exactly the blocks it received, whole and in file order. (So: per goroutine the order is the
+written order; across goroutines there is no order, `emit` is called concurrently.) -/
+theorem pbf_roundtrip_cores (es : List Element) (assign : List Nat) (g : Nat) :
+    let bs := writeAll es
+    let chunks := bs.map fun b => (readBlock {} b).out
+    chunks.flatten = es.map quantise ∧ (∀ b ∈ bs, (readBlock {} b).fail = none) ∧
+    readCores {} bs assign g =
+      (List.range g).map fun k => ((chunks.zip assign).filter (fun p => p.2 == k)).flatMap (·.1) := by
+  obtain ⟨h1, h2⟩ := readAll_chunks (pbf_roundtrip es)
+  refine ⟨h1, h2, ?_⟩
+  simp only [readCores, List.zip_map_left, List.filter_map, List.flatMap_map]
+  rfl
+
+/-- with one goroutine every block goes to goroutine 0: its stream is the written sequence -/
+theorem pbf_roundtrip_one_core (es : List Element) :
+    readCores {} (writeAll es) (List.replicate (writeAll es).length 0) 1 = [es.map quantise] := by
+  obtain ⟨h1, _⟩ := readAll_chunks (pbf_roundtrip es)
+  have hz : ∀ (bs : List Block), ((bs.zip (List.replicate bs.length 0)).filter (fun p => p.2 == 0)).flatMap
+      (fun p => (readBlock {} p.1).out) = (bs.map fun b => (readBlock {} b).out).flatten := by
+    intro bs
+    induction bs with
+    | nil => rfl
+    | cons b bs ih => simp [List.replicate_succ, ih]
+  simp [readCores, hz, h1]
+
+/-- `lookupString` never hands out index 0 (the reserved entry), whatever the string — the empty string
+included — and the index it returns resolves to the string in the table. -/
+theorem string_index (S : List Str) (s : Str) :
+    (lookup S s).1 ≠ 0 ∧ ("" :: (lookup S s).2)[(lookup S s).1]? = some s :=
+  ⟨(lookup_spec S s).2.2, (lookup_spec S s).2.1⟩
+
+/-- In every dense group the writer produces, `KeysVals` is one segment per node (`segs.length` = number of
+IDs), and the reader's cursor after the tag loop has run for `k` nodes stands exactly at the start of
+segment `k` (what is left is the segments from `k` on) — for every `k` up to the node count. -/
+theorem dense_tags_aligned (es : List Element) (b : Block) (hb : b ∈ writeAll es) (g : Group) (hg : g ∈ b.groups)
+    (d : Dense) (hd : g.dense = some d) :
+    ∃ segs : List (List Nat), segs.length = d.id.length ∧ d.keysVals = segs.flatten ∧
+      ∀ k, k ≤ segs.length → restAfter b.strings k d.keysVals = .ok (segs.drop k).flatten := by
+  obtain ⟨ns, rfl, hok⟩ := (writeAll_spec es).2 b hb g hg d hd
+  refine ⟨ns.map seg, by simp [encDense_id_length], encDense_keysVals 0 0 0 ns, ?_⟩
+  intro k hk
+  rw [encDense_keysVals, restAfter_segs b.strings ns hok k (by simpa using hk), List.map_drop]
+
+/-! Non-vacuity: a concrete sequence with all three types, a type switch back to nodes, the empty string
+as key / value / role, and negative IDs; its file has four blocks, the first one with a dense group. -/
+
+def sample : List Element :=
+  [ .node (-5) 515353621 (-1243072) [⟨"", ""⟩, ⟨"a", ""⟩],
+    .node 7 (-99) 199 [],
+    .way 3 [7, -5, 7] [⟨"a", "b"⟩],
+    .relation (-1) [⟨.way, 3, ""⟩, ⟨.node, -5, "a"⟩] [⟨"type", "x"⟩],
+    .node 9 0 0 [⟨"a", "a"⟩] ]
+
+example : (writeAll sample).length = 4 := by decide
+example : ((((writeAll sample).head?.bind (·.groups.head?)).bind (·.dense)).map (·.keysVals)) =
+    some [1, 1, 2, 1, 0, 0] := by decide
+example : readAll {} (writeAll sample) = ⟨sample.map quantise, none⟩ := pbf_roundtrip sample
+example : quantCoord (-99) = 0 ∧ quantCoord 199 = 100 ∧ quantCoord 515353621 = 515353600 := by decide
+example : ∃ X : Rat, ∃ n : Int64, (n.toInt : Rat) - X < 1 ∧ -1 < (n.toInt : Rat) - X := ⟨0, 0, by simp; grind, by simp; grind⟩
+
+end B6.Props.C27
